@@ -155,7 +155,8 @@ PROPS["C10"] = {
     "reasons": {"err": {"1": "wrong HTTP status for the gRPC code, or the error's explicit HTTP status not honoured",
                         "2": "empty error body, or body without the error message",
                         "3": "bound request: body is not a decodable google.rpc.Status with code, message and details",
-                        "4": "unbound request answered with something other than plain text"},
+                        "4": "unbound request answered with something other than plain text",
+                        "5": "an error was rendered after the first response byte had been written"},
                 "neg": {"1": "content negotiation (Content-Type / Accept / SSE admission) differs from the rules"}},
     "rule": "err: exhaustive matrix 16 non-OK codes x origins {router, stream creation, target status, target status after the first streamed message} x details {none, resolvable, type unknown to the target's descriptors} x explicit HTTP status {none, 418, 451} x request cancelled {no, yes}, + request-decode errors + a real deadline, through TranscodedHTTPBridge with a recorder; messages with quotes/newlines/non-ASCII. neg: random Content-Type / Accept header line sets x streaming kinds through StandardTranscoder.Bind",
     "level_text": "Coq theorems: the status table equals the canonical gRPC->HTTP mapping on all 17 codes (finite domain, forallb by vm_compute lifted with forallb_forall); for every error before the first byte the HTTP status is the explicit one or the table's, the body is never empty and always carries the message, a Status message iff bound and encodable, plain text otherwise (also when the details cannot be encoded); nothing is rendered after the first byte; the pre-repair fallback (empty body) is refuted; negotiation: 415 iff a Content-Type is given and none is supported, Accept picks the response type, SSE only for server-streaming non-client-streaming methods. Tied to the code by the exhaustive matrix.",
